@@ -20,6 +20,8 @@ import uuid
 
 from harness import common
 
+common.ensure_repo_on_path()
+
 PROPERTY = 'C17'
 LEAN_PROPS = 'PlumpyModel.Props.C17'
 ASSUMPTIONS = [
@@ -346,6 +348,8 @@ def run_case(job):
                 out.append((line, await ss.ckpt(toks)))
                 continue
             n0 = len(ss.records)
+            ss.scan()
+            n_pids_before = len(ss.pids)
             kw = {}
             if toks[0] in ('L', 'X'):
                 kw = dict(init_kwargs=None if toks[2] == 'none' else {'inputs': {'n': int(toks[2])}})
@@ -373,6 +377,22 @@ def run_case(job):
                 rec['kind'] = 't'
                 rec['via'] = line
                 out.append((t_line(rec['op']), rec))
+            # the task(s) the launcher received must be the task(s) the controller was asked to send
+            if toks[0] in ('L', 'X', 'C') and new:
+                def ident_tok(cls_tok, lflag):
+                    return 'a.Out' if (lflag == 'c' and cls_tok == 'Out') else 'd.' + cls_tok
+                ref = lambda r: r if (r.startswith('#') and r[1:].isdigit() and int(r[1:]) < n_pids_before) else '?'  # noqa: E731
+                if toks[0] == 'L':
+                    want = [mk('launch', ident=ident_tok(toks[1], toks[5]), n=toks[2], persist=toks[3], nowait=toks[4])]
+                elif toks[0] == 'C':
+                    want = [mk('continue', pid=ref(toks[1]), nowait=toks[3], tag=toks[2])]
+                else:
+                    want = [mk('create', ident=ident_tok(toks[1], toks[4]), n=toks[2], persist='1')]
+                    if new[0]['reply'].startswith('pid:'):
+                        want.append(mk('continue', pid=new[0]['reply'][4:], nowait=toks[3], tag='none'))
+                got = [t_line(rec['op']) for rec in new]
+                if got != want:
+                    new[-1]['controller_sent'] = dict(asked=line, expected_tasks=want, received_tasks=got)
             if new:
                 new[-1]['controller_saw'] = seen
             else:
@@ -451,6 +471,8 @@ def monitor_case(pers, loader, obs):
             continue
         if o['keys_after'] != o['keys']:
             bad(i, 'persisted-after-reply', 'a task persists before it replies', dict(at_reply=o['keys'], after=o['keys_after']))
+        if 'controller_sent' in o:
+            bad(i, 'controller-task', 'the task the launcher receives is the task the controller was asked to send', o['controller_sent'])
         if 'controller_saw' in o and o['controller_saw'] != reply:
             bad(i, 'controller-reply', 'the reply the controller receives is the reply of the launcher',
                 dict(launcher=reply, controller=o['controller_saw']))
@@ -692,8 +714,8 @@ def gen_cases(ctx):
     cases = systematic(CONFIGS)
     n_sys = len(cases)
     max_len = 20 if ctx.thorough else 6
-    n_direct = 120000 if ctx.thorough else 20000
-    n_ctl = 20000 if ctx.thorough else 4000
+    n_direct = 80000 if ctx.thorough else 12000
+    n_ctl = 12000 if ctx.thorough else 2500
     for _ in range(n_direct):
         pers, loader = rng.choice(CONFIGS)
         cases.append((pers, loader, 'direct', random_history(rng, rng.randint(1, max_len))))
